@@ -20,6 +20,10 @@ structure Snapshot where
   hold : Coins
   spendable : Coins
   unvested : Coins
+  /-- the hold store has one truth: the per-account listing that the bank module's locked-coins
+  lookup uses, the per-denom point lookup and the all-accounts listing must report the same
+  amounts; the harness prints `hv=` (and this is `true`) only when they differ -/
+  holdViewsDiffer : Bool := false
   deriving Repr
 
 def Snapshot.denoms (a : Snapshot) : List Denom :=
@@ -42,6 +46,7 @@ def checkState (st : List Snapshot) : Option String :=
   if !(st.all Snapshot.nonneg) then some "negative_amount"
   else if !(st.all Snapshot.holdLeBal) then some "hold_exceeds_balance"
   else if !(st.all Snapshot.spendableOk) then some "spendable_not_formula"
+  else if st.any (·.holdViewsDiffer) then some "hold_lookup_inconsistent"
   else none
 
 /-- A successful debit of `amt` from an account whose state before was `a` must have left the
@@ -53,5 +58,39 @@ def debitKeepsHold (a : Snapshot) (amt : Coins) : Bool :=
 /-- A successful new hold of `amt` must have been within the spendable balance reported before. -/
 def holdWithinSpendable (a : Snapshot) (amt : Coins) : Bool :=
   (Coins.denoms amt).all fun d => decide (Coins.amountOf amt d ≤ Coins.amountOf a.spendable d)
+
+/-! ### messages that release holds and move funds in several steps
+
+What one accepted message did to the accounts, in the order of the calls: holds released, funds
+taken from an account, funds given to an account, holds placed.  Judged on the observed state
+before the message: every step that takes funds must leave the amount still on hold in place. -/
+
+inductive Move where
+  | release (a : String) (cs : Coins)
+  | debit (a : String) (cs : Coins)
+  | credit (a : String) (cs : Coins)
+  | hold (a : String) (cs : Coins)
+  deriving Repr
+
+private def updSnap (st : List Snapshot) (a : String) (f : Snapshot → Snapshot) : List Snapshot :=
+  st.map fun sn => if sn.name = a then f sn else sn
+
+/-- run the moves over the observed state; `false` as soon as a debit is larger than
+`balance − hold` of that moment (accounts that were not dumped are not judged). -/
+def movesKeepHolds : List Snapshot → List Move → Bool
+  | _, [] => true
+  | st, .release a cs :: rest =>
+    movesKeepHolds (updSnap st a fun sn => { sn with hold := sn.hold ++ Coins.neg cs }) rest
+  | st, .hold a cs :: rest =>
+    movesKeepHolds (updSnap st a fun sn => { sn with hold := sn.hold ++ cs }) rest
+  | st, .credit a cs :: rest =>
+    movesKeepHolds (updSnap st a fun sn => { sn with bal := sn.bal ++ cs }) rest
+  | st, .debit a cs :: rest =>
+    match st.find? (·.name = a) with
+    | none => movesKeepHolds st rest
+    | some sn =>
+      if debitKeepsHold sn cs then
+        movesKeepHolds (updSnap st a fun sn => { sn with bal := sn.bal ++ Coins.neg cs }) rest
+      else false
 
 end PvModel.LockSpec
